@@ -246,7 +246,7 @@ def definition(case, ctx):
 
 
 # ---------------------------------------------------------------------------
-# clause 2: both implementations, linearity, containers, purity
+# clause 2: both implementations, linearity, containers
 
 
 @st.composite
@@ -523,6 +523,8 @@ def _mr_cases(tier):
                  "beta": float((-1) ** int(2 * _hu("bs", i, j)) * 2.0 ** int(-8 + 17 * _hu("be", i, j)))}
             if c["as"] == "int":
                 c["unit"] = 0
+            if j == 1:  # a property of the WHOLE record (sign, exact zeros, largest value 0): half-wave rectified records
+                c["clip"] = _hpick(["no", "no", "neg", "pos"], "clip", i, j)
             cases.append(c)
     return cases
 
@@ -573,7 +575,7 @@ def _rtol(n):
 @enum_clause(CLAUSES, "mid-range", _mr_enum,
              rule="record lengths gen.size_ladder(129, 1024, 16) + 1023 + 1024 (thorough: 40 + 16 rungs, the powers of two -1/+0/+1/+2, "
                   "and 2047 / 2048 / 3001 / 4096 outside the quantifier), each rung in both parities; noise x envelope, band-limited "
-                  "noise, modulated off-grid sines, walk - all with a mean and a Nyquist component; float64 / list / int64 / strided / "
+                  "noise, modulated off-grid sines, walk - all with a mean and a Nyquist component, as they are or half-wave rectified (non-positive / non-negative with exact zeros); float64 / list / int64 / strided / "
                   "reversed / read-only container, unit 2^{0,34,-47,120,-333,+-700}, alpha signed log-uniform [1e-3,1e3], beta +-2^k by hash of "
                   "(VERIF_SEED, index); interp omitted / False",
              oracle="reference model on the WHOLE array for transform AND transform_w_scipy_fft (per-row inverse FFT of the statement's "
@@ -588,6 +590,10 @@ def mid_range(case, ctx):
     a = _mr_record(length, case["kind"], case["seed"])
     b = _mr_record(length, case["kind_b"], int(case["seed"]) + 1)
     u = int(case.get("unit") or 0)
+    if case.get("clip") == "neg":
+        a = np.minimum(a, 0.0)  # non-positive, many exact zeros, largest value exactly 0
+    elif case.get("clip") == "pos":
+        a = np.maximum(a, 0.0)
     if case["as"] == "int":
         a = np.round(a * 1000.0)
     if u:
@@ -598,7 +604,8 @@ def mid_range(case, ctx):
     x = np.array(arg, dtype=float)
     xt = x[:n]
     ctx.cls("kind=" + case["kind"], "as=" + case["as"], gen.size_class(length), "odd" if length % 2 else "even",
-            "pow2" if _is_pow2(n) else "non-pow2", "unit!=0" if u else "unit=0", "beyond-quantifier" if length > MAX_LEN else None)
+            "pow2" if _is_pow2(n) else "non-pow2", "unit!=0" if u else "unit=0", "beyond-quantifier" if length > MAX_LEN else None,
+            "clip=" + case["clip"] if case.get("clip", "no") != "no" else None)
     ctx.nt(True)
     rt = _rtol(n)
     na = _norm(xt)
